@@ -473,6 +473,8 @@ class DiGraph(object):
         """
         idoms = self.compute_immediate_dominators(head)
         dominator_tree = DiGraph()
+        # The head is the root of the tree, even if it dominates no other node
+        dominator_tree.add_node(head)
         for node in idoms:
             dominator_tree.add_edge(idoms[node], node)
 
